@@ -37,6 +37,12 @@ Engine/RecEval.vos Engine/RecEval.vok Engine/RecEval.required_vos: Engine/RecEva
 Engine/RecFuel.vo Engine/RecFuel.glob Engine/RecFuel.v.beautified Engine/RecFuel.required_vo: Engine/RecFuel.v Engine/RecTheorems.vo
 Engine/RecFuel.vio: Engine/RecFuel.v Engine/RecTheorems.vio
 Engine/RecFuel.vos Engine/RecFuel.vok Engine/RecFuel.required_vos: Engine/RecFuel.v Engine/RecTheorems.vos
+Engine/RecFuelAcyclic.vo Engine/RecFuelAcyclic.glob Engine/RecFuelAcyclic.v.beautified Engine/RecFuelAcyclic.required_vo: Engine/RecFuelAcyclic.v Engine/RecFuel.vo
+Engine/RecFuelAcyclic.vio: Engine/RecFuelAcyclic.v Engine/RecFuel.vio
+Engine/RecFuelAcyclic.vos Engine/RecFuelAcyclic.vok Engine/RecFuelAcyclic.required_vos: Engine/RecFuelAcyclic.v Engine/RecFuel.vos
+Engine/RecFuelLoops.vo Engine/RecFuelLoops.glob Engine/RecFuelLoops.v.beautified Engine/RecFuelLoops.required_vo: Engine/RecFuelLoops.v Engine/RecFuelAcyclic.vo
+Engine/RecFuelLoops.vio: Engine/RecFuelLoops.v Engine/RecFuelAcyclic.vio
+Engine/RecFuelLoops.vos Engine/RecFuelLoops.vok Engine/RecFuelLoops.required_vos: Engine/RecFuelLoops.v Engine/RecFuelAcyclic.vos
 Engine/RecInv.vo Engine/RecInv.glob Engine/RecInv.v.beautified Engine/RecInv.required_vo: Engine/RecInv.v Engine/RecEngine.vo Engine/AndOrFacts.vo
 Engine/RecInv.vio: Engine/RecInv.v Engine/RecEngine.vio Engine/AndOrFacts.vio
 Engine/RecInv.vos Engine/RecInv.vok Engine/RecInv.required_vos: Engine/RecInv.v Engine/RecEngine.vos Engine/AndOrFacts.vos
@@ -49,12 +55,18 @@ Engine/RecTheorems.vos Engine/RecTheorems.vok Engine/RecTheorems.required_vos: E
 Engine/RecWitness.vo Engine/RecWitness.glob Engine/RecWitness.v.beautified Engine/RecWitness.required_vo: Engine/RecWitness.v Engine/RecEngine.vo
 Engine/RecWitness.vio: Engine/RecWitness.v Engine/RecEngine.vio
 Engine/RecWitness.vos Engine/RecWitness.vok Engine/RecWitness.required_vos: Engine/RecWitness.v Engine/RecEngine.vos
+Engine/SlgForest.vo Engine/SlgForest.glob Engine/SlgForest.v.beautified Engine/SlgForest.required_vo: Engine/SlgForest.v Engine/SlgTable.vo
+Engine/SlgForest.vio: Engine/SlgForest.v Engine/SlgTable.vio
+Engine/SlgForest.vos Engine/SlgForest.vok Engine/SlgForest.required_vos: Engine/SlgForest.v Engine/SlgTable.vos
 Engine/SlgTable.vo Engine/SlgTable.glob Engine/SlgTable.v.beautified Engine/SlgTable.required_vo: Engine/SlgTable.v Logic/Contract.vo
 Engine/SlgTable.vio: Engine/SlgTable.v Logic/Contract.vio
 Engine/SlgTable.vos Engine/SlgTable.vok Engine/SlgTable.required_vos: Engine/SlgTable.v Logic/Contract.vos
 Infer/Answer.vo Infer/Answer.glob Infer/Answer.v.beautified Infer/Answer.required_vo: Infer/Answer.v Ir/Syntax.vo Ir/Fold.vo Infer/Canon.vo
 Infer/Answer.vio: Infer/Answer.v Ir/Syntax.vio Ir/Fold.vio Infer/Canon.vio
 Infer/Answer.vos Infer/Answer.vok Infer/Answer.required_vos: Infer/Answer.v Ir/Syntax.vos Ir/Fold.vos Infer/Canon.vos
+Infer/AnswerWf.vo Infer/AnswerWf.glob Infer/AnswerWf.v.beautified Infer/AnswerWf.required_vo: Infer/AnswerWf.v Ir/Syntax.vo Ir/Fold.vo Infer/Canon.vo Infer/UCanon.vo Infer/Answer.vo Agg/Instance.vo Agg/AntiUnify.vo
+Infer/AnswerWf.vio: Infer/AnswerWf.v Ir/Syntax.vio Ir/Fold.vio Infer/Canon.vio Infer/UCanon.vio Infer/Answer.vio Agg/Instance.vio Agg/AntiUnify.vio
+Infer/AnswerWf.vos Infer/AnswerWf.vok Infer/AnswerWf.required_vos: Infer/AnswerWf.v Ir/Syntax.vos Ir/Fold.vos Infer/Canon.vos Infer/UCanon.vos Infer/Answer.vos Agg/Instance.vos Agg/AntiUnify.vos
 Infer/Canon.vo Infer/Canon.glob Infer/Canon.v.beautified Infer/Canon.required_vo: Infer/Canon.v Ir/Syntax.vo Ir/Fold.vo
 Infer/Canon.vio: Infer/Canon.v Ir/Syntax.vio Ir/Fold.vio
 Infer/Canon.vos Infer/Canon.vok Infer/Canon.required_vos: Infer/Canon.v Ir/Syntax.vos Ir/Fold.vos
@@ -64,6 +76,12 @@ Infer/Closed.vos Infer/Closed.vok Infer/Closed.required_vos: Infer/Closed.v Ir/S
 Infer/Complete.vo Infer/Complete.glob Infer/Complete.v.beautified Infer/Complete.required_vo: Infer/Complete.v Ir/Syntax.vo Ir/Fold.vo Infer/Table.vo Infer/Unify.vo Infer/Closed.vo Infer/Sym.vo Infer/Sound.vo
 Infer/Complete.vio: Infer/Complete.v Ir/Syntax.vio Ir/Fold.vio Infer/Table.vio Infer/Unify.vio Infer/Closed.vio Infer/Sym.vio Infer/Sound.vio
 Infer/Complete.vos Infer/Complete.vok Infer/Complete.required_vos: Infer/Complete.v Ir/Syntax.vos Ir/Fold.vos Infer/Table.vos Infer/Unify.vos Infer/Closed.vos Infer/Sym.vos Infer/Sound.vos
+Infer/Complete2.vo Infer/Complete2.glob Infer/Complete2.v.beautified Infer/Complete2.required_vo: Infer/Complete2.v Ir/Syntax.vo Ir/Fold.vo Infer/Table.vo Infer/Unify.vo Infer/Closed.vo Infer/Sym.vo Infer/Sound.vo Infer/Complete.vo
+Infer/Complete2.vio: Infer/Complete2.v Ir/Syntax.vio Ir/Fold.vio Infer/Table.vio Infer/Unify.vio Infer/Closed.vio Infer/Sym.vio Infer/Sound.vio Infer/Complete.vio
+Infer/Complete2.vos Infer/Complete2.vok Infer/Complete2.required_vos: Infer/Complete2.v Ir/Syntax.vos Ir/Fold.vos Infer/Table.vos Infer/Unify.vos Infer/Closed.vos Infer/Sym.vos Infer/Sound.vos Infer/Complete.vos
+Infer/Complete3.vo Infer/Complete3.glob Infer/Complete3.v.beautified Infer/Complete3.required_vo: Infer/Complete3.v Ir/Syntax.vo Ir/Fold.vo Infer/Table.vo Infer/Unify.vo Infer/Closed.vo Infer/Sym.vo Infer/Sound.vo Infer/Complete.vo Infer/Complete2.vo
+Infer/Complete3.vio: Infer/Complete3.v Ir/Syntax.vio Ir/Fold.vio Infer/Table.vio Infer/Unify.vio Infer/Closed.vio Infer/Sym.vio Infer/Sound.vio Infer/Complete.vio Infer/Complete2.vio
+Infer/Complete3.vos Infer/Complete3.vok Infer/Complete3.required_vos: Infer/Complete3.v Ir/Syntax.vos Ir/Fold.vos Infer/Table.vos Infer/Unify.vos Infer/Closed.vos Infer/Sym.vos Infer/Sound.vos Infer/Complete.vos Infer/Complete2.vos
 Infer/Exec.vo Infer/Exec.glob Infer/Exec.v.beautified Infer/Exec.required_vo: Infer/Exec.v Ir/Syntax.vo Ir/Fold.vo Infer/Canon.vo Infer/UCanon.vo Infer/Answer.vo Infer/Invert.vo
 Infer/Exec.vio: Infer/Exec.v Ir/Syntax.vio Ir/Fold.vio Infer/Canon.vio Infer/UCanon.vio Infer/Answer.vio Infer/Invert.vio
 Infer/Exec.vos Infer/Exec.vok Infer/Exec.required_vos: Infer/Exec.v Ir/Syntax.vos Ir/Fold.vos Infer/Canon.vos Infer/UCanon.vos Infer/Answer.vos Infer/Invert.vos
@@ -103,9 +121,18 @@ Ir/Fold.vos Ir/Fold.vok Ir/Fold.required_vos: Ir/Fold.v Ir/Syntax.vos
 Ir/Syntax.vo Ir/Syntax.glob Ir/Syntax.v.beautified Ir/Syntax.required_vo: Ir/Syntax.v 
 Ir/Syntax.vio: Ir/Syntax.v 
 Ir/Syntax.vos Ir/Syntax.vok Ir/Syntax.required_vos: Ir/Syntax.v 
+Logic/Classes.vo Logic/Classes.glob Logic/Classes.v.beautified Logic/Classes.required_vo: Logic/Classes.v Logic/Contract.vo
+Logic/Classes.vio: Logic/Classes.v Logic/Contract.vio
+Logic/Classes.vos Logic/Classes.vok Logic/Classes.required_vos: Logic/Classes.v Logic/Contract.vos
 Logic/Contract.vo Logic/Contract.glob Logic/Contract.v.beautified Logic/Contract.required_vo: Logic/Contract.v Logic/Ground.vo
 Logic/Contract.vio: Logic/Contract.v Logic/Ground.vio
 Logic/Contract.vos Logic/Contract.vok Logic/Contract.required_vos: Logic/Contract.v Logic/Ground.vos
+Logic/Decide.vo Logic/Decide.glob Logic/Decide.v.beautified Logic/Decide.required_vo: Logic/Decide.v Logic/Meta.vo
+Logic/Decide.vio: Logic/Decide.v Logic/Meta.vio
+Logic/Decide.vos Logic/Decide.vok Logic/Decide.required_vos: Logic/Decide.v Logic/Meta.vos
+Logic/Fuel.vo Logic/Fuel.glob Logic/Fuel.v.beautified Logic/Fuel.required_vo: Logic/Fuel.v Logic/Ground.vo
+Logic/Fuel.vio: Logic/Fuel.v Logic/Ground.vio
+Logic/Fuel.vos Logic/Fuel.vok Logic/Fuel.required_vos: Logic/Fuel.v Logic/Ground.vos
 Logic/Ground.vo Logic/Ground.glob Logic/Ground.v.beautified Logic/Ground.required_vo: Logic/Ground.v Logic/Sem.vo
 Logic/Ground.vio: Logic/Ground.v Logic/Sem.vio
 Logic/Ground.vos Logic/Ground.vok Logic/Ground.required_vos: Logic/Ground.v Logic/Sem.vos
@@ -127,12 +154,12 @@ Logic/Sem.vos Logic/Sem.vok Logic/Sem.required_vos: Logic/Sem.v Logic/Program.vo
 Mem/InPlace.vo Mem/InPlace.glob Mem/InPlace.v.beautified Mem/InPlace.required_vo: Mem/InPlace.v 
 Mem/InPlace.vio: Mem/InPlace.v 
 Mem/InPlace.vos Mem/InPlace.vok Mem/InPlace.required_vos: Mem/InPlace.v 
-Props/C01.vo Props/C01.glob Props/C01.v.beautified Props/C01.required_vo: Props/C01.v Logic/Contract.vo Logic/Meta.vo
-Props/C01.vio: Props/C01.v Logic/Contract.vio Logic/Meta.vio
-Props/C01.vos Props/C01.vok Props/C01.required_vos: Props/C01.v Logic/Contract.vos Logic/Meta.vos
-Props/C02.vo Props/C02.glob Props/C02.v.beautified Props/C02.required_vo: Props/C02.v Logic/Contract.vo
-Props/C02.vio: Props/C02.v Logic/Contract.vio
-Props/C02.vos Props/C02.vok Props/C02.required_vos: Props/C02.v Logic/Contract.vos
+Props/C01.vo Props/C01.glob Props/C01.v.beautified Props/C01.required_vo: Props/C01.v Logic/Contract.vo Logic/Meta.vo Logic/Fuel.vo Logic/Decide.vo Logic/Classes.vo
+Props/C01.vio: Props/C01.v Logic/Contract.vio Logic/Meta.vio Logic/Fuel.vio Logic/Decide.vio Logic/Classes.vio
+Props/C01.vos Props/C01.vok Props/C01.required_vos: Props/C01.v Logic/Contract.vos Logic/Meta.vos Logic/Fuel.vos Logic/Decide.vos Logic/Classes.vos
+Props/C02.vo Props/C02.glob Props/C02.v.beautified Props/C02.required_vo: Props/C02.v Logic/Contract.vo Logic/Fuel.vo
+Props/C02.vio: Props/C02.v Logic/Contract.vio Logic/Fuel.vio
+Props/C02.vos Props/C02.vok Props/C02.required_vos: Props/C02.v Logic/Contract.vos Logic/Fuel.vos
 Props/C03.vo Props/C03.glob Props/C03.v.beautified Props/C03.required_vo: Props/C03.v Engine/SlgTable.vo
 Props/C03.vio: Props/C03.v Engine/SlgTable.vio
 Props/C03.vos Props/C03.vok Props/C03.required_vos: Props/C03.v Engine/SlgTable.vos
@@ -151,12 +178,12 @@ Props/C07.vos Props/C07.vok Props/C07.required_vos: Props/C07.v Rules/Assoc.vos
 Props/C08.vo Props/C08.glob Props/C08.v.beautified Props/C08.required_vo: Props/C08.v Rules/Builtin.vo
 Props/C08.vio: Props/C08.v Rules/Builtin.vio
 Props/C08.vos Props/C08.vok Props/C08.required_vos: Props/C08.v Rules/Builtin.vos
-Props/C09.vo Props/C09.glob Props/C09.v.beautified Props/C09.required_vo: Props/C09.v Engine/RecFuel.vo
-Props/C09.vio: Props/C09.v Engine/RecFuel.vio
-Props/C09.vos Props/C09.vok Props/C09.required_vos: Props/C09.v Engine/RecFuel.vos
-Props/C10.vo Props/C10.glob Props/C10.v.beautified Props/C10.required_vo: Props/C10.v Engine/RecTheorems.vo Engine/AndOrEval.vo
-Props/C10.vio: Props/C10.v Engine/RecTheorems.vio Engine/AndOrEval.vio
-Props/C10.vos Props/C10.vok Props/C10.required_vos: Props/C10.v Engine/RecTheorems.vos Engine/AndOrEval.vos
+Props/C09.vo Props/C09.glob Props/C09.v.beautified Props/C09.required_vo: Props/C09.v Engine/RecFuelLoops.vo
+Props/C09.vio: Props/C09.v Engine/RecFuelLoops.vio
+Props/C09.vos Props/C09.vok Props/C09.required_vos: Props/C09.v Engine/RecFuelLoops.vos
+Props/C10.vo Props/C10.glob Props/C10.v.beautified Props/C10.required_vo: Props/C10.v Engine/SlgForest.vo Engine/RecTheorems.vo Engine/AndOrEval.vo
+Props/C10.vio: Props/C10.v Engine/SlgForest.vio Engine/RecTheorems.vio Engine/AndOrEval.vio
+Props/C10.vos Props/C10.vok Props/C10.required_vos: Props/C10.v Engine/SlgForest.vos Engine/RecTheorems.vos Engine/AndOrEval.vos
 Props/C11.vo Props/C11.glob Props/C11.v.beautified Props/C11.required_vo: Props/C11.v Engine/RecTheorems.vo
 Props/C11.vio: Props/C11.v Engine/RecTheorems.vio
 Props/C11.vos Props/C11.vok Props/C11.required_vos: Props/C11.v Engine/RecTheorems.vos
@@ -166,9 +193,9 @@ Props/C12.vos Props/C12.vok Props/C12.required_vos: Props/C12.v Engine/RecTheore
 Props/C13.vo Props/C13.glob Props/C13.v.beautified Props/C13.required_vo: Props/C13.v Logic/Perm.vo
 Props/C13.vio: Props/C13.v Logic/Perm.vio
 Props/C13.vos Props/C13.vok Props/C13.required_vos: Props/C13.v Logic/Perm.vos
-Props/C14.vo Props/C14.glob Props/C14.v.beautified Props/C14.required_vo: Props/C14.v Ir/Syntax.vo Infer/Table.vo Infer/Unify.vo Infer/Sound.vo Infer/Complete.vo
-Props/C14.vio: Props/C14.v Ir/Syntax.vio Infer/Table.vio Infer/Unify.vio Infer/Sound.vio Infer/Complete.vio
-Props/C14.vos Props/C14.vok Props/C14.required_vos: Props/C14.v Ir/Syntax.vos Infer/Table.vos Infer/Unify.vos Infer/Sound.vos Infer/Complete.vos
+Props/C14.vo Props/C14.glob Props/C14.v.beautified Props/C14.required_vo: Props/C14.v Ir/Syntax.vo Infer/Table.vo Infer/Unify.vo Infer/Sound.vo Infer/Complete.vo Infer/Complete2.vo Infer/Complete3.vo
+Props/C14.vio: Props/C14.v Ir/Syntax.vio Infer/Table.vio Infer/Unify.vio Infer/Sound.vio Infer/Complete.vio Infer/Complete2.vio Infer/Complete3.vio
+Props/C14.vos Props/C14.vok Props/C14.required_vos: Props/C14.v Ir/Syntax.vos Infer/Table.vos Infer/Unify.vos Infer/Sound.vos Infer/Complete.vos Infer/Complete2.vos Infer/Complete3.vos
 Props/C15.vo Props/C15.glob Props/C15.v.beautified Props/C15.required_vo: Props/C15.v Ir/Syntax.vo Infer/Table.vo Infer/Unify.vo Infer/Sym.vo
 Props/C15.vio: Props/C15.v Ir/Syntax.vio Infer/Table.vio Infer/Unify.vio Infer/Sym.vio
 Props/C15.vos Props/C15.vok Props/C15.required_vos: Props/C15.v Ir/Syntax.vos Infer/Table.vos Infer/Unify.vos Infer/Sym.vos
@@ -208,9 +235,9 @@ Props/C26.vos Props/C26.vok Props/C26.required_vos: Props/C26.v Ir/Syntax.vos Ir
 Props/C27.vo Props/C27.glob Props/C27.v.beautified Props/C27.required_vo: Props/C27.v Mem/InPlace.vo
 Props/C27.vio: Props/C27.v Mem/InPlace.vio
 Props/C27.vos Props/C27.vok Props/C27.required_vos: Props/C27.v Mem/InPlace.vos
-Props/C28.vo Props/C28.glob Props/C28.v.beautified Props/C28.required_vo: Props/C28.v Ir/Syntax.vo Ir/Fold.vo Infer/Canon.vo Infer/Answer.vo
-Props/C28.vio: Props/C28.v Ir/Syntax.vio Ir/Fold.vio Infer/Canon.vio Infer/Answer.vio
-Props/C28.vos Props/C28.vok Props/C28.required_vos: Props/C28.v Ir/Syntax.vos Ir/Fold.vos Infer/Canon.vos Infer/Answer.vos
+Props/C28.vo Props/C28.glob Props/C28.v.beautified Props/C28.required_vo: Props/C28.v Ir/Syntax.vo Ir/Fold.vo Infer/Canon.vo Infer/Answer.vo Agg/Instance.vo Agg/AntiUnify.vo Infer/AnswerWf.vo
+Props/C28.vio: Props/C28.v Ir/Syntax.vio Ir/Fold.vio Infer/Canon.vio Infer/Answer.vio Agg/Instance.vio Agg/AntiUnify.vio Infer/AnswerWf.vio
+Props/C28.vos Props/C28.vok Props/C28.required_vos: Props/C28.v Ir/Syntax.vos Ir/Fold.vos Infer/Canon.vos Infer/Answer.vos Agg/Instance.vos Agg/AntiUnify.vos Infer/AnswerWf.vos
 Props/C29.vo Props/C29.glob Props/C29.v.beautified Props/C29.required_vo: Props/C29.v Ir/Syntax.vo Infer/Table.vo Infer/Unify.vo Infer/Variance.vo Infer/Closed.vo
 Props/C29.vio: Props/C29.v Ir/Syntax.vio Infer/Table.vio Infer/Unify.vio Infer/Variance.vio Infer/Closed.vio
 Props/C29.vos Props/C29.vok Props/C29.required_vos: Props/C29.v Ir/Syntax.vos Infer/Table.vos Infer/Unify.vos Infer/Variance.vos Infer/Closed.vos
